@@ -12,6 +12,8 @@ CLAIMED = {
 }
 CLAIMED['C01'] = dict(text="History theorem C01_history_wf (props/C01.v): for EVERY finite sequence over the modelled operation alphabet (subset, contraction, reroot, cut distal/proximal, node insertion, id relabelling, concatenation, fragment join, identity) with arbitrary parameters, a well-formed forest stays well formed (unique ids, parents present, acyclic via a rank function); per-operation theorems; wfb_iff proves the boolean checker exact. Tie: random histories of real navis operations, every table left behind is decided by the verified checker evaluated in Coq (plus type labels = classify, no missing values, soma membership) and, for modelled operations, compared with model/Ops.v step by step.",
              technique="Coq proof by induction over operation histories + verified boolean checker run on implementation outputs + stepwise differential correspondence", ref="6/C01")
+CLAIMED['C10'] = dict(text="Theorems (props/C10.v) for ALL well-formed forests and targets: reroot preserves the node list, row order, payload and the undirected edge set, makes the target a root, leaves rows off the reversed path (all other fragments) identical and is the identity on current roots; cut pieces are descendants-or-self / the rest, share only the cut node and contain every edge exactly once; subset keeps exactly requested-and-present ids with the original parent iff it survives, exactly the connectors/tags of survivors; prevent_fragments: superset, connected, only nodes on requested nodes' root paths (global minimality is partial: decided by model equality on outputs). Tie: exact equality of node tables, types, connector tables and tag maps between navis and the model evaluated in Coq on random forests/backends.",
+             technique="Coq proofs of functional specifications + exact differential correspondence (vm_compute vs navis)", ref="6/C10")
 PENDING = {}
 props = [json.loads(l) for l in open(os.path.join(V, 'properties.jsonl'))]
 checks, na = [], []
